@@ -186,8 +186,7 @@ example :
     LenInv k0 ∧ HistoryInRange k0 [.deleteVertex 2, .addVertex, .collectGarbage, .swapVertex 0 1] := by
   refine ⟨?_, ?_⟩
   · constructor <;> simp [nE, nF, nC, nHE, nHF, ColsLen]
-  · simp [HistoryInRange, OpInRange]
-    decide
+  · simp [HistoryInRange, OpInRange] <;> decide
 
 example : (({ key := "x", dflt := 0, vals := [10, 11, 20, 21, 30, 31] } : Col).erase 3 |>.erase 2).vals = [10, 11, 30, 31] ∧
     (({ key := "x", dflt := 7, vals := [1] } : Col).resize 3).vals = [1, 7, 7] := by decide
